@@ -69,6 +69,9 @@ func verifyFunction(ld *Loader, cs *ContractSet, fn *ssa.Function, c *Contract) 
 			g.pass = 2
 			for _, k := range prevKeys {
 				g.regKey(k, prevInfo[k].sort, prevInfo[k].kind)
+				ki := g.keys[k]
+				ki.ref = prevInfo[k].ref
+				g.keys[k] = ki
 			}
 			g.loopMods = loopMods
 			g.loopAll = loopAll
